@@ -518,6 +518,7 @@ func (q *TransferQueue) collectBatches() {
 		if len(next) == 0 && len(pending) != 0 {
 			// There are some pending that could not be queued.
 			// Wait the requested time before resuming loop.
+			verifEv("col.sleep", "", int(minWaitTime/time.Millisecond))
 			time.Sleep(minWaitTime)
 		} else if len(next) == 0 && len(pending) == 0 && closing {
 			// There are no items remaining, it is safe to break
